@@ -199,13 +199,8 @@ impl Model for ChunkModel {
         let is_default = self.max_dev.is_some() && k == 1 && f == CForm::Byte;
         let dev = if self.max_dev.is_some() && !is_default { s.dev + 1 } else { s.dev };
         let bad = res.err().map(|p| format!("panic in update ({} bytes, {:?}): {}", k, f, p));
-        // a zero-length call must not change anything
-        if k == 0 && bad.is_none() && format!("{:?}", g) != format!("{:?}", s.g) {
-            return Some(St::new(s.p, g, dev, Some(format!("a zero-length {:?} call changed the generator", f))));
-        }
-        if k == 0 && self.max_dev.is_none() {
-            return None;
-        }
+        // a zero-length call (on a clone) is an ordinary transition: whether it changes unobservable
+        // internals is not the property's business; the observables of the resulting state are checked
         Some(St::new(s.p + k, g, dev, bad))
     }
     fn properties(&self) -> Vec<Property<Self>> {
@@ -232,11 +227,14 @@ fn run_chunking(x: &[u8], zp: u64, calls: &[(usize, CForm)], with_clone_and_fina
         guarded(|| feed_c(&mut g, &x[p..p + k], f)).map_err(|e| format!("panic in call {}: {}", i, e))?;
         r.feed_all(&x[p..p + k]);
         p += k;
-        if with_clone_and_finalize && i % 2 == 0 {
-            // continue on a clone; finalize in between
+        // continue on a clone after every call (clones are part of the property and the explored
+        // model clones the generator at every transition); finalize the original in between
+        {
             let c = g.clone();
-            let _ = g.finalize();
-            let _ = g.finalize_without_truncation();
+            if with_clone_and_finalize {
+                let _ = g.finalize();
+                let _ = g.finalize_without_truncation();
+            }
             g = c;
         }
         if let Some(m) = mismatch(&g, &r) {
